@@ -103,6 +103,63 @@ let oracle line =
            List.map (function OEv e when int_of_z e.e_flags land 4 <> 0 -> OEv { e with e_iter = zi (-1) } | x -> x) obs in
        if spec_checkb env uenv ops obs then "OK" else "BAD differs from the specification: " ^ pr_obs (spec_run env uenv ops))
   | None -> "BAD"
+(* ---- chain cases "WS ..." (signal chain) / "WP ..." (process chain): model LoopChain.h_crun (heap level: FAULT / LEAK),
+   oracle LoopChain.l_checkb (the snapshot specification).  Actions ws<sig>:<fl>:<cb> / wp<fl>:<cb>, c<id>, -;
+   ops G<sig> (signal dispatch), H (SIGCHLD dispatch), X<id>:<status>, r0 *)
+let chain_mode line = match split_ws line with "WS" :: _ -> Some false | "WP" :: _ -> Some true | _ -> None
+let cact_of proc a =
+  if a = "-" then Some CNop else
+  match a.[0] with
+  | 'w' ->
+    (match a.[1], ints (tl a 2) with
+     | 's', [sg; fl; cb] when not proc -> Some (CReg (fl land 1 <> 0, zi sg, fl land 2 <> 0, fl land 4 <> 0, zi cb))
+     | 'p', [fl; cb] when proc -> Some (CReg (fl land 1 <> 0, Z0, fl land 2 <> 0, fl land 4 <> 0, zi cb))
+     | _ -> failwith "chain w")
+  | 'c' when String.length a > 1 && a.[1] <> 'b' -> Some (CCancel (zi (int_of_string (tl a 1))))
+  | _ -> None
+let parse_chain proc line =
+  let cbs = Hashtbl.create 8 in
+  let ops = ref [] in
+  List.iter (fun tok ->
+      if tok = "WS" || tok = "WP" then () else
+      if String.length tok > 2 && tok.[0] = 'c' && tok.[1] = 'b' then begin
+        match String.index_opt tok '=' with
+        | Some i ->
+          let k = int_of_string (String.sub tok 2 (i - 2)) in
+          let acts = List.filter (fun x -> x <> "") (String.split_on_char ',' (tl tok (i + 1))) in
+          Hashtbl.replace cbs k (List.map (fun a -> match cact_of proc a with Some x -> x | None -> failwith ("act " ^ a)) acts)
+        | None -> failwith "cb"
+      end else
+        match cact_of proc tok with
+        | Some a -> ops := KAct a :: !ops
+        | None ->
+          (match tok.[0] with
+           | 'G' -> ops := KWalk (zi (int_of_string (tl tok 1))) :: !ops
+           | 'H' -> ops := KWalk Z0 :: !ops
+           | 'X' -> (match ints (tl tok 1) with [id; st] -> ops := KExit (zi id, zi st) :: !ops | _ -> failwith "X")
+           | 'r' -> ops := KTick :: !ops
+           | _ -> failwith ("op " ^ tok)))
+    (split_ws line);
+  let env z = try Hashtbl.find cbs (int_of_z z) with Not_found -> [] in
+  (env, List.rev !ops)
+let chain_model proc line =
+  let (env, ops) = parse_chain proc line in
+  match h_crun proc env (nat_of_int 3000) ops with
+  | None -> "FAULT"
+  | Some (l, leakfree) ->
+    if l <> l_run proc env ops then "ERR heap level and specification disagree" else
+    if leakfree then pr_obs l else if l = [] then "LEAK" else pr_obs l ^ " LEAK"
+let chain_oracle proc c o =
+  let (env, ops) = parse_chain proc c in
+  match (try Some (parse_obs o) with _ -> None) with
+  | None -> "BAD unreadable observation"
+  | Some obs -> if l_checkb proc env ops obs then "OK" else "BAD differs from the chain specification: " ^ pr_obs (l_run proc env ops)
+let model line = match chain_mode line with Some proc -> chain_model proc line | None -> model line
+let oracle line =
+  match String.index_opt line '|' with
+  | Some i when chain_mode line <> None ->
+    (match chain_mode line with Some proc -> chain_oracle proc (String.sub line 0 i) (tl line (i + 1)) | None -> "BAD")
+  | _ -> oracle line
 let () =
   let f = if Array.length Sys.argv > 1 && Sys.argv.(1) = "oracle" then oracle else model in
   iter_lines (fun l -> print_endline (try f l with Failure m -> "ERR " ^ m | Not_found -> "ERR nf" | Invalid_argument m -> "ERR " ^ m))
